@@ -13,6 +13,7 @@ pub mod c15;
 pub mod c16;
 pub mod c17_18;
 pub mod c19;
+pub mod c20;
 
 pub struct Args {
     pub prop: String,
@@ -54,6 +55,7 @@ pub fn run(args: &Args) -> Shard {
         "C16" => c16::run(args, &mut sh),
         "C17" | "C18" => c17_18::run(args, &mut sh),
         "C19" => c19::run(args, &mut sh),
+        "C20" => c20::run(args, &mut sh),
         "DBG" => { let mut a2 = Args { prop: "C03".into(), tier: args.tier.clone(), build: args.build.clone(), seed: args.seed, shard: 0, nshards: 1, replay: None, scale: 1000 }; a2.seed = args.seed; c01_04::debug_mismatch(&a2) }
         p => sh.inconclusive.push(format!("no check implemented for {}", p)),
     }
